@@ -19,6 +19,11 @@ func init() {
 			"at run time (packages resolve and execution/engine) no field of a cached plan node is assigned outside constructors (frozen: the tracing field); the plan cache stores a plan only after planning reported no error and after post-processing, under a key that is the hash of the printed operation; a planner is created per cache miss and pooled planning kits are reset before they return to the pool; " +
 			"per-request outputs of normalization (the variables remap) are never backed by pooled, reused storage. It does not decide option transparency (value level).",
 		Mutants: []Mutant{
+			{Name: "subscription filter reads the raw variables under the canonical name (reverts the F31 fix)", File: "v2/pkg/engine/resolve/subscription_filter.go", Rule: "C09-R7", Key: "SkipEvent/direct-lookup-in-Context.Variables",
+				Old: "value := ctx.VariablesView().Get(f.Values[i].Segments[0].VariableSourcePath...)", New: "value := ctx.Variables.Get(f.Values[i].Segments[0].VariableSourcePath...)"},
+			{Name: "variables view tries the canonical name first (seeded change C09-21)", File: "v2/pkg/engine/resolve/variables_view.go", Rule: "C09-R7", Key: "VariablesView.Get/remap-consulted-before-lookup",
+				Old: "\thead := path[0]\n\tif orig, ok := v.remap[head]; ok {\n\t\thead = orig\n\t}\n\tval := v.variables.Get(head)\n",
+				New: "\tval := v.variables.Get(path[0])\n\tif val == nil {\n\t\tif orig, ok := v.remap[path[0]]; ok {\n\t\t\tval = v.variables.Get(orig)\n\t\t}\n\t}\n"},
 			{Name: "first contributing member describes the whole merged group (seeded change C09-11)", File: "v2/pkg/engine/postprocess/create_multi_fetch.go", Rule: "C09-R6", Key: "merged-deps",
 				Old: "\t\t\tseen[dep] = struct{}{}\n\t\t\tdeps = append(deps, dep)\n\t\t}\n", New: "\t\t\tseen[dep] = struct{}{}\n\t\t\tdeps = append(deps, dep)\n\t\t}\n\t\tif len(deps) > 0 {\n\t\t\tbreak\n\t\t}\n"},
 			{Name: "minifier tie-break removed (the repaired defect F5)", File: "v2/pkg/astminify/minify.go", Rule: "C09-R1", Key: "Minifier.apply/map-range1",
@@ -94,6 +99,7 @@ func runC09(r *fw.Run) {
 	c09Immutability(r)
 	c09PlanCache(r)
 	c09Pools(r)
+	c09VariablesByNameOnlyThroughView(r)
 	mergedDependencies(r, "C09-R6") // multi-fetch merging is transparent only if the merged fetch waits for every member's prerequisites
 	if os.Getenv("VERIF_DEBUG_PLANWRITES") != "" {
 		for _, pkg := range []string{"resolve", "engine"} {
@@ -819,4 +825,130 @@ func c09Pools(r *fw.Run) {
 	}
 	r.Expect("C09-R5", "assignments of the remap table", nW, 1)
 	r.Check(fresh, "C09-R5", "variablesMappingVisitor.EnterDocument/allocates", "-", "EnterDocument allocates the remap table", "no fresh allocation of the remap table when a document is entered")
+}
+
+// c09VariablesByNameOnlyThroughView (R7): renaming a request's variables is transparent only if every run-time lookup of a
+// variable by name translates the canonical (plan) name back to the client's name. The library has one place that does
+// that — VariablesView.Get, built by Context.VariablesView() from Context.Variables and Context.RemapVariables. The rule
+// is a who-may-read rule: no function looks a key up directly in Context.Variables (a Get*/Exists call on that field);
+// inside VariablesView every keyed lookup in the raw variables is made on the failure edge of the remap lookup or with the
+// name the remap returned.
+func c09VariablesByNameOnlyThroughView(r *fw.Run) {
+	p := r.Prog
+	r.Rule("C09-R7", "request variables are looked up by name only through VariablesView (which translates renamed variables): no Get*/Exists call on Context.Variables anywhere in the loaded packages; VariablesView.Get consults the remap table before it touches the raw variables")
+	nDirect, nView := 0, 0
+	for _, pkgAlias := range []string{"resolve", "plan", "postprocess", "gqlds", "engine"} {
+		for _, fi := range p.Funcs(pkgAlias) {
+			info := fi.Info()
+			fw.WalkAll(fi.Decl.Body, func(nd ast.Node) bool {
+				c, ok := nd.(*ast.CallExpr)
+				if !ok {
+					return true
+				}
+				sel, isSel := ast.Unparen(c.Fun).(*ast.SelectorExpr)
+				if !isSel || !(strings.HasPrefix(sel.Sel.Name, "Get") || sel.Sel.Name == "Exists") {
+					return true
+				}
+				if fw.IsFieldSel(info, sel.X, "resolve", "Context", "Variables") {
+					nDirect++
+					r.Fail("C09-R7", fi.Name()+"/direct-lookup-in-Context.Variables#"+itoa(nDirect), p.Pos(c.Pos()), "no keyed lookup in Context.Variables outside VariablesView",
+						"the variable is looked up under its canonical (plan) name in the raw request variables, which are keyed by the client's names: after variable renaming the lookup misses (or hits a different client variable that happens to be spelled like a canonical name) — the same request behaves differently depending on how its variables are spelled")
+				}
+				return true
+			})
+		}
+	}
+	r.Check(nDirect == 0, "C09-R7", "no-direct-lookup-in-Context.Variables", "-", "no Get*/Exists call on the field Context.Variables in resolve, plan, postprocess, graphql_datasource, execution/engine", "see the individual sites")
+	// inside the view: remap consulted first
+	if fi := p.Func("resolve", "VariablesView.Get"); fi == nil {
+		r.Error("C09-R7: VariablesView.Get not found")
+	} else {
+		info := fi.Info()
+		in := fw.NewInterp(fi)
+		fromRemap := map[types.Object]bool{} // value variables of `orig, ok := v.remap[k]`
+		okVars := map[types.Object]bool{}
+		fw.WalkAll(fi.Decl.Body, func(nd ast.Node) bool {
+			as, ok := nd.(*ast.AssignStmt)
+			if !ok || len(as.Lhs) != 2 || len(as.Rhs) != 1 {
+				return true
+			}
+			ix, isIx := ast.Unparen(as.Rhs[0]).(*ast.IndexExpr)
+			if !isIx || !fw.IsFieldSel(info, ix.X, "resolve", "VariablesView", "remap") {
+				return true
+			}
+			for i, l := range as.Lhs {
+				if id, isID := l.(*ast.Ident); isID {
+					o := info.Defs[id]
+					if o == nil {
+						o = info.Uses[id]
+					}
+					if i == 0 {
+						fromRemap[o] = true
+					} else {
+						okVars[o] = true
+					}
+				}
+			}
+			return true
+		})
+		// "resolved": on this path the name variable holds what the remap table says — either the table has no entry (the
+		// name stays) or the entry was assigned to it. The fact survives the join of the two edges.
+		assigned := map[types.Object]bool{}
+		in.H = fw.Hooks{
+			Cond: func(e ast.Expr, branch bool, st *fw.State) {
+				if id, ok := ast.Unparen(e).(*ast.Ident); ok && okVars[info.Uses[id]] {
+					if branch {
+						st.Set("entry")
+						st.Kill("no-entry")
+					} else {
+						st.Set("no-entry")
+						st.Kill("entry")
+						st.Set("resolved")
+					}
+				}
+			},
+			Node: func(nd ast.Node, st *fw.State) {
+				if as, ok := nd.(*ast.AssignStmt); ok && len(as.Lhs) == len(as.Rhs) {
+					for i, l := range as.Lhs {
+						id, isID := l.(*ast.Ident)
+						if !isID {
+							continue
+						}
+						o := info.Defs[id]
+						if o == nil {
+							o = info.Uses[id]
+						}
+						if o == nil {
+							continue
+						}
+						if rid, isR := ast.Unparen(as.Rhs[i]).(*ast.Ident); isR && fromRemap[info.Uses[rid]] && st.Must("entry") {
+							assigned[o] = true
+							st.Set("resolved")
+						} else if assigned[o] {
+							st.Kill("resolved")
+						}
+					}
+				}
+				c, ok := nd.(*ast.CallExpr)
+				if !ok || !in.Final() {
+					return
+				}
+				sel, isSel := ast.Unparen(c.Fun).(*ast.SelectorExpr)
+				if !isSel || !fw.IsFieldSel(info, sel.X, "resolve", "VariablesView", "variables") || !(strings.HasPrefix(sel.Sel.Name, "Get") || sel.Sel.Name == "Exists") || len(c.Args) == 0 {
+					return
+				}
+				nView++
+				okArg := st.Must("no-entry")
+				if id, isID := ast.Unparen(c.Args[0]).(*ast.Ident); isID {
+					if o := info.Uses[id]; o != nil && ((assigned[o] && st.Must("resolved")) || (fromRemap[o] && st.Must("entry"))) {
+						okArg = true
+					}
+				}
+				r.Check(okArg, "C09-R7", "VariablesView.Get/remap-consulted-before-lookup#"+itoa(nView), p.Pos(c.Pos()), "the lookup in the raw variables uses the name the remap table returned, or is made on the edge where the table has no entry",
+					"the raw variables are consulted under the canonical name although the remap table may hold an entry for it: a client variable that happens to be spelled like a canonical name (a, b, …) is read instead of the renamed one — `transfer(from:$b,to:$a)` sends the two values swapped")
+			},
+		}
+		in.Run(nil)
+	}
+	r.Expect("C09-R7", "keyed lookups in the raw variables inside VariablesView.Get", nView, 1)
 }
